@@ -61,6 +61,25 @@ pub fn check_queries(
     goal_var: usize,
     memo_models_valid: bool,
 ) -> Result<bool, String> {
+    let ident: Vec<usize> = (0..k).collect();
+    check_queries_mapped(bdd, k, h, t, termlist, goal_var, memo_models_valid, &ident)
+}
+
+/// as `check_queries` with logical variable i living at library variable vm[i]
+#[allow(clippy::too_many_arguments)]
+pub fn check_queries_mapped(
+    bdd: &Bdd,
+    k: usize,
+    h: Term,
+    t: &Table,
+    termlist: &[(Term, Table)],
+    goal_var: usize,
+    memo_models_valid: bool,
+    vm: &[usize],
+) -> Result<bool, String> {
+    let identity = vm.iter().enumerate().all(|(i, &a)| i == a);
+    let to_logical = |actual: usize| vm.iter().position(|&a| a == actual);
+    let goal_actual = if goal_var < k { vm[goal_var] } else { vm.last().map(|x| x + 1).unwrap_or(0) };
     let mut memo = HashMap::new();
     let (p0, p1, depth, mindepth) = dfs(bdd, h, &mut memo);
     let hv = h.value();
@@ -93,7 +112,15 @@ pub fn check_queries(
     }
     // dependencies
     let sup: BTreeSet<usize> = t_support(k, t).into_iter().collect();
-    let deps: BTreeSet<usize> = bdd.var_dependencies(h).into_iter().map(|v| v.value()).collect();
+    let mut deps: BTreeSet<usize> = BTreeSet::new();
+    for v in bdd.var_dependencies(h) {
+        match to_logical(v.value()) {
+            Some(i) => {
+                deps.insert(i);
+            }
+            None => return Err(format!("var_dependencies({hv}) lists variable {} which was never created", v.value())),
+        }
+    }
     if deps != sup {
         return Err(format!(
             "var_dependencies({hv}) = {deps:?} but the function depends exactly on {sup:?}"
@@ -107,14 +134,15 @@ pub fn check_queries(
                 .iter()
                 .filter(|(_, tt)| v < k && t_support(k, tt).contains(&v))
                 .count();
-            let got = bdd.passive_var_impact(Var(v), &terms);
+            let got = bdd.passive_var_impact(Var(if v < k { vm[v] } else { goal_actual.max(vm.last().copied().unwrap_or(0)) + 1 + v }), &terms);
             if got != exp {
                 return Err(format!(
                     "passive_var_impact(var {v}) = {got} but {exp} of the listed diagrams depend on it"
                 ));
             }
         }
-        for v in 0..terms.len() {
+        // (positions = variables: only meaningful when logical and library indices coincide)
+        for v in 0..if identity { terms.len() } else { 0 } {
             let s = t_support(k, &termlist[v].1);
             let exp = (0..terms.len()).filter(|i| s.contains(i)).count();
             let got = bdd.active_var_impact(Var(v), &terms);
@@ -127,7 +155,16 @@ pub fn check_queries(
     }
     // path cubes
     for goal in [true, false] {
-        let cubes = bdd.interpretations(h, goal, Var(goal_var), &[], &[]);
+        let cubes_actual = bdd.interpretations(h, goal, Var(goal_actual), &[], &[]);
+        let mut cubes: Vec<(Vec<Var>, Vec<Var>)> = Vec::new();
+        for (neg, pos) in &cubes_actual {
+            let mut m = |l: &Vec<Var>| -> Result<Vec<Var>, String> {
+                l.iter()
+                    .map(|v| to_logical(v.value()).map(Var).ok_or_else(|| format!("cube mentions variable {} which was never created", v.value())))
+                    .collect()
+            };
+            cubes.push((m(neg)?, m(pos)?));
+        }
         if hv < 2 {
             if !cubes.is_empty() {
                 return Err("interpretations() of a constant yields cubes".into());
